@@ -265,21 +265,22 @@ fn lex_str_literal(lx: &mut Lexer<'_, Token>) -> Result<String, LexErr> {
                 // the next character is part of the escape.
                 // If the backslash is the last character of the line, 
                 // there is nothing to escape and the literal cannot be closed on this line:
-                let Some(esc) = right.as_bytes().first() else { break };
+                let Some(esc) = right.chars().next() else { break };
                 match esc {
-                    b'n'  => buf.push('\n'),
-                    b'r'  => buf.push('\r'),
-                    b't'  => buf.push('\t'),
-                    b'\\' => buf.push('\\'),
-                    b'0'  => buf.push('\0'),
-                    b'"'  => buf.push('\"'),
-                    &c => {
+                    'n'  => buf.push('\n'),
+                    'r'  => buf.push('\r'),
+                    't'  => buf.push('\t'),
+                    '\\' => buf.push('\\'),
+                    '0'  => buf.push('\0'),
+                    '"'  => buf.push('\"'),
+                    c => {
                         buf.push('\\');
-                        buf.push(char::from(c));
+                        buf.push(c);
                     }
                 }
                 
-                remaining = &right[1..];
+                // skip the whole escaped character (it may be longer than one byte)
+                remaining = &right[esc.len_utf8()..];
             },
             "\"" => {
                 remaining = right;
